@@ -429,6 +429,50 @@ func c09Exec(cs c09Case) (*fw.Violation, *harness.Server, int) {
 	if ev := h.PoolEvents(); len(ev) > 0 {
 		return mk("pool-misuse", shape, strings.Join(ev, "; ")), h, nOrder
 	}
+	// afterwards: every handler returns, and the peer opens as many streams at once as the server advertised (3):
+	// a concurrency slot the failed stream never gave back shows as a refusal here
+	for _, c := range h.Calls {
+		if !c.Returned {
+			h.Finish(c.Idx, resp)
+		}
+	}
+	var hi uint32
+	for id := range h.Streams {
+		if id > hi {
+			hi = id
+		}
+	}
+	for _, f := range h.Out {
+		if f.Stream > hi {
+			hi = f.Stream
+		}
+	}
+	if x.xid > hi {
+		hi = x.xid
+	}
+	hi |= 1
+	before := len(h.Calls)
+	var late []uint32
+	for k := 0; k < 3; k++ {
+		hi += 2
+		late = append(late, hi)
+		h.SendFrames(peer.Headers(hi, staticBlock(harness.ReqFields("GET", "https", "h", "/late", [2]string{"x-sid", fmt.Sprint(hi)})), peer.HeadersOpt{EndStream: true, EndHeaders: true, Pad: -1}))
+	}
+	if v := check(); v != nil {
+		return v, h, nOrder
+	}
+	if len(h.Calls) != before+3 {
+		var got []string
+		for _, id := range late {
+			if so := h.Streams[id]; so != nil {
+				got = append(got, fmt.Sprintf("%d: rst=%v", id, so.Rst))
+			}
+		}
+		return mk("later-streams-refused", shape, fmt.Sprintf("after offence %q on stream %d and with every handler returned, 3 requests opened at once (the advertised limit) led to %d handler calls (%s)", cs.Offence, x.xid, len(h.Calls)-before, strings.Join(got, ", "))), h, nOrder
+	}
+	for _, c := range h.Calls[before:] {
+		h.Finish(c.Idx, resp)
+	}
 	return nil, h, nOrder
 }
 
